@@ -1350,7 +1350,7 @@ impl Diff {
 impl<'a, T: Display> Display for PrettyPrintSet<'a, T> {
     fn fmt(&self, f: &mut Formatter<'_>) -> std::fmt::Result {
         f.write_char('[')?;
-        let max = self.0.len() - 1;
+        let max = self.0.len().saturating_sub(1);
         for (i, entry) in self.0.iter().enumerate() {
             write!(f, "{}", entry)?;
             if i < max {
